@@ -574,7 +574,7 @@ func runC14(c *Ctx) {
 		}
 	}
 	c.Meta(map[string]interface{}{
-		"rule": "shapes: every single and every pair of container fields (slice of ints / pointers / structs, array, array of pointers, maps to ints / pointers / slices of pointers, pointer, pointer to pointer, nested struct by value) filled empty or non-empty (thorough: additionally all 3^6 fillings of the pointer-bearing fields); per shape and storage mode (sync, cache, async pending, async flushed, cache+compression): store, then per mutator (18 reachable mutable locations) mutate the caller's object and read through Get(fresh), Get(same dirty object), GetByUUID, All, AssignAll, Collect; mutate returned objects and read again; reopen and read; without mutation: JSON equality of every read with the accepted value and a reflection walk proving that no read shares memory with the stored argument or with another read. Non-trivial = non-empty shapes.",
+		"rule":   "shapes: every single and every pair of container fields (slice of ints / pointers / structs, array, array of pointers, maps to ints / pointers / slices of pointers, pointer, pointer to pointer, nested struct by value) filled empty or non-empty (thorough: additionally all 3^6 fillings of the pointer-bearing fields); per shape and storage mode (sync, cache, async pending, async flushed, cache+compression): store, then per mutator (18 reachable mutable locations) mutate the caller's object and read through Get(fresh), Get(same dirty object), GetByUUID, All, AssignAll, Collect; mutate returned objects and read again; reopen and read; without mutation: JSON equality of every read with the accepted value and a reflection walk proving that no read shares memory with the stored argument or with another read. Non-trivial = non-empty shapes.",
 		"shapes": len(shs), "modes": len(modes), "mutators": len(payMutators),
 		"assumptions": []string{"strings (immutable) and unexported fields are skipped, as documented in object.go"},
 	})
